@@ -517,6 +517,98 @@ def classify(why, names, d, anc, is_sub, schema):
 
 # ------------------------------------------------------------------ the check
 
+SPELL_PROPERTIES = {
+    "title": {"type": "text", "fields": {"raw": {"type": "keyword"}}},
+    "author": {"type": "nested", "properties": {
+        "name": {"type": "text", "fields": {"raw": {"type": "keyword"}}}, "tag": {"type": "keyword"},
+        "book": {"type": "nested", "properties": {
+            "title": {"type": "text"}, "isbn": {"type": "keyword"},
+            "format": {"type": "nested", "properties": {"ftype": {"type": "keyword"}}}}}}},
+    "manager": {"type": "object", "properties": {
+        "firstname": {"type": "text"},
+        "subteams": {"type": "nested", "properties": {"label": {"type": "text"}, "size": {"type": "long"}}}}},
+}
+# the same nested fields, spelled in different ways (all denote the same set of dotted names)
+SPELLINGS = {
+    "nested dicts": {"author": {"name": {}, "tag": {}, "book": {"title": {}, "isbn": {}, "format": {"ftype": {}}}},
+                     "manager": {"subteams": {"label": {}, "size": {}}}},
+    "None and lists for the leaves": {"author": {"name": None, "tag": None,
+                                                 "book": {"title": None, "isbn": None, "format": ["ftype"]}},
+                                      "manager.subteams": ["label", "size"]},
+    "flat list of dotted names": ["author.name", "author.tag", "author.book.title", "author.book.isbn",
+                                  "author.book.format.ftype", "manager.subteams.label", "manager.subteams.size"],
+    "dict of dotted names": {"author.name": None, "author.tag": None, "author.book.title": None,
+                             "author.book.isbn": None, "author.book.format.ftype": None,
+                             "manager.subteams.label": None, "manager.subteams.size": None},
+    "lists with dotted names inside": {"author": ["name", "tag", "book.title", "book.isbn", "book.format.ftype"],
+                                       "manager": ["subteams.label", "subteams.size"]},
+    "one dotted key per nested field, outermost first": {"author": ["name", "tag"], "author.book": ["title", "isbn"],
+                                                         "author.book.format": ["ftype"],
+                                                         "manager.subteams": ["label", "size"]},
+    "one dotted key per nested field, innermost first": {"author.book.format": ["ftype"],
+                                                         "author.book": ["title", "isbn"], "author": ["name", "tag"],
+                                                         "manager.subteams": ["label", "size"]},
+    "dotted key first, then a nested dict": {"author.book": {"title": None, "isbn": None, "format": ["ftype"]},
+                                             "author": {"name": None, "tag": None},
+                                             "manager.subteams": {"label": None, "size": None}},
+}
+
+
+def spelling_oracle(res):
+    """last clause of the property, on the implementation: equivalent spellings of the nested-fields specification
+    configure identical behaviour (every leaf in both query spellings, every container queried directly)"""
+    import copy as _copy
+    from luqum.parser import parser
+    from luqum.elasticsearch import ElasticsearchQueryBuilder, SchemaAnalyzer
+
+    def denoted(spec, prefix=""):
+        if not spec:
+            return {prefix[:-1]} if prefix else set()
+        if isinstance(spec, dict):
+            return set().union(*(denoted(v, prefix + k + ".") for k, v in spec.items()))
+        return {prefix + name for name in spec}
+
+    def walk(props, path=()):
+        for name, fdef in props.items():
+            here = path + (name,)
+            yield here
+            if fdef.get("type") in ("object", "nested"):
+                yield from walk(fdef.get("properties", {}), here)
+            else:
+                for sub in fdef.get("fields", {}):
+                    yield here + (sub,)
+
+    def queries(path):
+        yield ".".join(path) + ":x"
+        if len(path) > 1:
+            q = path[-1] + ":x"
+            for name in reversed(path[:-1]):
+                q = "%s:(%s)" % (name, q)
+            yield q
+
+    def run(options, q):
+        try:
+            return ("ok", ElasticsearchQueryBuilder(**_copy.deepcopy(options))(parser.parse(q)))
+        except Exception as e:  # noqa
+            return ("exc", type(e).__name__)
+    base = SchemaAnalyzer({"mappings": {"properties": SPELL_PROPERTIES}}).query_builder_options()
+    names = {k: denoted(v) for k, v in SPELLINGS.items()}
+    assert len({frozenset(v) for v in names.values()}) == 1, "the spellings of the harness do not denote the same names"
+    n = 0
+    for path in walk(SPELL_PROPERTIES):
+        for q in queries(path):
+            want = run(base, q)
+            for label, spec in SPELLINGS.items():
+                n += 1
+                got = run(dict(base, nested_fields=spec), q)
+                if got != want:
+                    res.failures.append(({"why": "an equivalent spelling of nested_fields configures another behaviour",
+                                          "spelling": label, "nested_fields": repr(spec), "query": q,
+                                          "with_this_spelling": repr(got)[:500],
+                                          "with_the_analyzer_options": repr(want)[:500]}, None))
+    return n
+
+
 def correspond(model_ok, res):
     import luqum.tree as T
     from luqum.parser import parser
@@ -641,6 +733,7 @@ def correspond(model_ok, res):
     res.samples = payload_b[3:400:70]
     if skipped:
         res.notes.append("%d descriptions without a counterpart in the model were skipped" % skipped)
+    dist["spec_spelling_cases"] = spelling_oracle(res)
     if not model_ok:
         res.model_error = "model did not build"
         return res
